@@ -9,7 +9,10 @@ import (
 	"github.com/anyproto/any-sync/util/crypto"
 )
 
-var ErrInvalidSignature = errors.New("invalid signature")
+var (
+	ErrInvalidSignature = errors.New("invalid signature")
+	ErrInvalidTimestamp = errors.New("invalid timestamp")
+)
 
 type KeyValue struct {
 	KeyPeerId string
@@ -39,6 +42,11 @@ func KeyValueFromProto(proto *spacesyncproto.StoreKeyValue, verify bool) (kv Key
 	innerValue := &spacesyncproto.StoreKeyInner{}
 	if err = innerValue.UnmarshalVT(proto.Value); err != nil {
 		return kv, err
+	}
+	if innerValue.TimestampMicro < 0 {
+		// the last-writer-wins order is kept both as a signed number and as big-endian bytes (ldiff head);
+		// the two orders agree only for non-negative timestamps
+		return kv, ErrInvalidTimestamp
 	}
 	kv.TimestampMicro = innerValue.TimestampMicro
 	identity, err := crypto.UnmarshalEd25519PublicKeyProto(innerValue.Identity)
